@@ -306,7 +306,14 @@ inline void digest_image(const Image &im, bool mask_alpha_bits, bool only_alpha_
   if (is_float(f)) {
     for (int y = 0; y < im.d.h; y++) {
       const uint32_t *p = (const uint32_t *)im.rowp(y);
-      for (int x = 0; x < im.d.w * (BPP / 32); x++) feed(p[x]);
+      // rgba_float keeps alpha in the fourth component: undefined under a destination alpha map, like the alpha bits
+      // of the packed formats below
+      int nc = BPP / 32;
+      for (int x = 0; x < im.d.w * nc; x++) {
+        bool is_alpha = nc == 4 && x % 4 == 3;
+        if ((mask_alpha_bits && is_alpha) || (only_alpha_bits && !is_alpha)) continue;
+        feed(p[x]);
+      }
     }
   } else {
     uint32_t dm = defined_mask(f);
